@@ -13,3 +13,4 @@ import Proofs.C16
 #print axioms C16.no_trailing_blanks
 #print axioms C16.text_csv_same_view
 #print axioms C16.header_cells_span_keys
+#print axioms C16.text_csv_same_view_summary
